@@ -76,6 +76,7 @@ int  live_threads();                                    // threads not finished 
 // Report a violation found by an oracle. Non-fatal: the run continues and the result line carries
 // it (first one wins). sig = "<oracle>/<component>/<condition>".
 void report(const char* cls, const std::string& sig, const std::string& detail);
+void set_signature_tag(const std::string& tag);   // appended to every violation signature until the next begin_run()
 // Fatal: print the result line and _exit (threads cannot be unwound).
 [[noreturn]] void fatal(const char* cls, const std::string& sig, const std::string& detail);
 
@@ -93,6 +94,8 @@ size_t decomp_clamp();
 void set_map_policy(bool move_always, int no_space_at);
 // compressor failure: the n-th call (0-based, counted over deflate/BZ2_bzCompress/LZ4_compress_fast) in this run fails (-1 = off)
 void set_compress_fail_at(int call);
+void set_thread_create_fail_at(int n);   // after begin_run(): the n-th (0-based) pthread_create from now on returns EAGAIN
+uint64_t thread_create_failures();
 int compress_fail_at();
 void count_compress_call(bool failed);
 uint64_t compress_failures();
